@@ -1,4 +1,114 @@
-(* C14 — stub while the harness is being validated *)
-From Murex Require Import Base.Outcome Model.Format Check.C14.
-Theorem C14_stub : True. Proof. exact I. Qed.
-Print Assumptions C14_stub.
+(* C14 — format preserves structured data between formats.
+   Only theorem statements here; proofs live in Proof/Format.v. *)
+From Murex Require Import Base.Outcome Base.Bytes Model.Alter Model.Format Check.C14 Proof.Format.
+
+(* csv: the encoding/csv reader (TrimLeadingSpace, Comment '#') applied to what
+   the writer printed gives back every row of every table, of any size, whose
+   rows have at least one cell, are not a single empty cell, do not start with
+   '#' and contain no carriage return (row_ok: exactly what findings 1-3 exclude). *)
+Theorem C14_csv_roundtrip : forall t, Forall row_ok t -> csv_read (wtable t) = map RRow t.
+Proof. exact csv_roundtrip. Qed.
+Print Assumptions C14_csv_roundtrip.
+
+(* list of records -> table (MapToTable) -> list of records (Table2Map) is the
+   identity on rectangular tables of string cells *)
+Theorem C14_table_map_roundtrip : forall o ms,
+  NoDup (map fst o) -> is_table (JObj o :: ms) = true ->
+  exists t, maps_to_table (JObj o :: ms) = Some (map fst o :: t) /\
+            table_to_maps (map RRow (map fst o :: t)) = Ok (JArr (JObj o :: ms)).
+Proof. exact table_map_roundtrip. Qed.
+Print Assumptions C14_table_map_roundtrip.
+
+(* the whole pipeline json -> csv -> json *)
+Theorem C14_csv_format_roundtrip : forall o ms,
+  NoDup (map fst o) -> is_table (JObj o :: ms) = true -> csv_guard (JObj o :: ms) ->
+  format_rt FCsv (JArr (JObj o :: ms)) = Ok (JArr (JObj o :: ms)).
+Proof. exact csv_format_roundtrip. Qed.
+Print Assumptions C14_csv_format_roundtrip.
+
+(* the guard cannot be dropped: the design-phase witness loses its only row,
+   a one-column table loses its empty cells *)
+Theorem C14_csv_comment_refuted :
+  exists ms, is_table ms = true /\
+    format_rt FCsv (JArr ms) = Ok (JArr []) /\ spec_ok (model_case FCsv (JArr ms)) = false.
+Proof.
+  exists [JObj [([97], JStr [35; 121]); ([98], JStr [32; 50])]]%N.
+  vm_compute. repeat split.
+Qed.
+Print Assumptions C14_csv_comment_refuted.
+
+Theorem C14_csv_blank_refuted :
+  exists ms, is_table ms = true /\ spec_ok (model_case FCsv (JArr ms)) = false.
+Proof.
+  exists [JObj [([97], JStr [])]; JObj [([97], JStr [120])]; JObj [([97], JStr [])]]%N.
+  vm_compute. repeat split.
+Qed.
+Print Assumptions C14_csv_blank_refuted.
+
+(* jsonl: every non-empty array whose leading array elements hold only strings *)
+Theorem C14_jsonl_roundtrip : forall es,
+  es <> [] -> rows_are_strings es -> format_rt FJsonl (JArr es) = Ok (JArr es).
+Proof. exact jsonl_roundtrip. Qed.
+Print Assumptions C14_jsonl_roundtrip.
+
+(* ... for any JSON printer that emits no newline, the text splits back into
+   exactly one line per element *)
+Theorem C14_jsonl_lines : forall pj : json -> bytes,
+  (forall v, ~ In 10%N (pj v)) -> forall es, split_lines [] (jsonl_text pj es) = map pj es.
+Proof. exact jsonl_lines. Qed.
+Print Assumptions C14_jsonl_lines.
+
+Theorem C14_jsonl_rows_refuted :
+  exists es, format_rt FJsonl (JArr es) <> Ok (JArr es) /\
+             spec_ok (model_case FJsonl (JArr es)) = false.
+Proof.
+  exists [JArr [JNum [49]; JNum [50]]; JArr [JNum [51]; JNum [52]]]%N.
+  split; [vm_compute; discriminate | vm_compute; reflexivity].
+Qed.
+Print Assumptions C14_jsonl_rows_refuted.
+
+(* yaml / toml (partial): given the library round trip on a domain, murex's
+   glue (cmdFormat: unmarshal with the source type, marshal with the target
+   type, twice) adds no loss *)
+Theorem C14_format_glue_preserves : forall enc dec (dom : json -> Prop),
+  (forall v, dom v -> exists b, enc v = Some b /\ dec b = Some v) ->
+  forall v, dom v -> format_via enc dec v = Ok v.
+Proof. exact format_glue_preserves. Qed.
+Print Assumptions C14_format_glue_preserves.
+
+(* headline: the model's observation satisfies the predicate the check
+   evaluates on the implementation *)
+Theorem C14_csv_meets_spec : forall o ms,
+  NoDup (map fst o) -> csv_guard (JObj o :: ms) ->
+  spec_ok (model_case FCsv (JArr (JObj o :: ms))) = true.
+Proof. exact csv_meets_spec. Qed.
+Print Assumptions C14_csv_meets_spec.
+
+Theorem C14_jsonl_meets_spec : forall es,
+  es <> [] -> rows_are_strings es -> spec_ok (model_case FJsonl (JArr es)) = true.
+Proof. exact jsonl_meets_spec. Qed.
+Print Assumptions C14_jsonl_meets_spec.
+
+(* Non-vacuity: a hostile table inside the guard (leading space, quote, comma,
+   newline, '#' not in first position), and spec_ok rejects a dropped row. *)
+Definition ex_rows : list json :=
+  [JObj [([97], JStr [32; 50]); ([98], JStr [35; 121])];
+   JObj [([97], JStr [34; 44; 10]); ([98], JStr [])]]%N.
+
+Example C14_csv_nonvacuous :
+  is_table ex_rows = true /\
+  (exists t, maps_to_table ex_rows = Some t /\ Forall row_ok t) /\
+  format_rt FCsv (JArr ex_rows) = Ok (JArr ex_rows) /\
+  spec_ok {| c_fmt := FCsv; c_doc := JArr ex_rows; c_kind := 0; c_mid_ok := true; c_mid := [];
+             c_out := Some (JArr [JObj [([97], JStr [32; 50]); ([98], JStr [35; 121])]]%N) |} = false.
+Proof.
+  split; [reflexivity|]. split; [|split; vm_compute; reflexivity].
+  eexists. split; [vm_compute; reflexivity|].
+  repeat constructor; try discriminate; unfold cell_ok; cbn; intuition discriminate.
+Qed.
+
+Example C14_jsonl_nonvacuous :
+  rows_are_strings [JArr [JStr [97]]; JNum [49]; JArr [JNum [50]]]%N /\
+  spec_ok {| c_fmt := FJsonl; c_doc := JArr [JNum [49]; JNull]%N; c_kind := 0; c_mid_ok := true;
+             c_mid := []; c_out := Some (JArr [JNull]) |} = false.
+Proof. split; [repeat constructor | reflexivity]. Qed.
